@@ -62,6 +62,7 @@ type c20Exp struct {
 	Names      []string `json:"names"`
 	Enc        string   `json:"enc"`
 	Unordered  string   `json:"unordered"`
+	Dialer     string   `json:"dialer"` // socket level meaning of KeepAlive: judged by harness/cmd/ck-client/c20_main_test.go
 }
 
 type c20Row struct {
